@@ -73,6 +73,24 @@ pub const BUILTIN_SCALARS: [&str; 5] = ["Int", "Float", "String", "Boolean", "ID
 impl Schema {
     /// Build from a type-system document. Root names default to Query / Mutation / Subscription.
     pub fn from_doc(doc: &TsDoc) -> Result<Schema, String> {
+        Schema::build(doc, false)
+    }
+
+    /// Like `from_doc`, but never fails: a type defined twice keeps its *last* definition and
+    /// extensions are skipped. The result may be an invalid type system (missing root, dangling
+    /// references, empty types …) — it is the input of `schema_validate::validate_schema`.
+    pub fn from_doc_tolerant(doc: &TsDoc) -> Schema {
+        Schema::build(doc, true).expect("tolerant build does not fail")
+    }
+
+    /// The built-in scalars and directives only; no root types (`query` is the default name "Query").
+    pub fn builtins() -> Schema {
+        let mut s = Schema::build(&TsDoc::default(), true).expect("tolerant build does not fail");
+        s.query = "Query".into();
+        s
+    }
+
+    fn build(doc: &TsDoc, tolerant: bool) -> Result<Schema, String> {
         let mut s = Schema::default();
         for b in BUILTIN_SCALARS {
             s.types.insert(b.to_string(), TypeT { name: b.to_string(), desc: None, kind: Kind::Scalar });
@@ -126,9 +144,12 @@ impl Schema {
                         TypeDefKind::Input { fields } => Kind::Input { fields: fields.iter().map(arg_of).collect(), one_of: td.directives.iter().any(|d| d.name.s == "oneOf") },
                     };
                     if td.extend {
+                        if tolerant {
+                            continue;
+                        }
                         return Err("extensions are not supported by the IR".into());
                     }
-                    if s.types.insert(td.name.s.clone(), TypeT { name: td.name.s.clone(), desc: td.desc.clone(), kind }).is_some() && !BUILTIN_SCALARS.contains(&td.name.s.as_str()) {
+                    if s.types.insert(td.name.s.clone(), TypeT { name: td.name.s.clone(), desc: td.desc.clone(), kind }).is_some() && !BUILTIN_SCALARS.contains(&td.name.s.as_str()) && !tolerant {
                         return Err(format!("duplicate type {}", td.name.s));
                     }
                 }
